@@ -113,6 +113,21 @@ func (s *CatSc) Run(env *core.Env, st *core.Stats) (vs []core.Violation) {
 		return vs
 	}
 
+	for _, e := range ro.events {
+		if e.kind == "extra-after-driverclose" {
+			st.Probe("driver-close-with-a-second-open-port")
+			if e.a == 1 {
+				add("driver-close", "port-left-open", "Driver.Close returned but port %s, opened on the same driver, is still open", e.s)
+				return vs
+			}
+		}
+	}
+	for _, c := range ro.calls {
+		if (c.op == "open-extra" || c.op == "close-extra") && c.err != nil {
+			add("idempotent-open-close", "extra-port", "%s: %s of the second port returned %v", c.thread, c.op, c.err)
+			return vs
+		}
+	}
 	s.checkIn(ro, st, add)
 	if len(vs) > 0 {
 		return vs
@@ -197,6 +212,26 @@ func (s *CatSc) checkIn(ro runOut, st *core.Stats, add func(clause, key, format 
 		case "listen":
 			l := &listenRec{lc: c.start, lr: c.end, stopCall: inf, stopRet: inf}
 			listeners[c.info] = l
+			if !open && s.ViaListenTo {
+				// midi.ListenTo opens the port first
+				st.Probe("in:ListenTo-opens-the-port")
+				fails := false
+				for _, f := range s.InHelper.FailStarts {
+					if f == startAttempt {
+						fails = true
+					}
+				}
+				startAttempt++
+				if fails {
+					if c.err == nil {
+						add("open-result", "in-start-failed-nil", "ListenTo returned nil although the helper could not be started")
+						return
+					}
+					break
+				}
+				expectStarts++
+				open = true
+			}
 			if !open {
 				st.Probe("in:listen-on-closed-port")
 				if c.err != drivers.ErrPortClosed {
@@ -268,6 +303,9 @@ func (s *CatSc) checkIn(ro runOut, st *core.Stats, add func(clause, key, format 
 	ed := map[int64]int64{}
 	var order []int64
 	for _, e := range ro.events {
+		if e.b != 0 {
+			continue // a record of the second in port's helper: nobody listens there
+		}
 		switch e.kind {
 		case "emit-start":
 			es[e.a] = e.t
@@ -457,14 +495,15 @@ func (s *CatSc) checkOut(ro runOut, st *core.Stats, add func(clause, key, format
 		start  int64
 		end    int64
 		err    error
+		extra  bool // sent on the second out port (open for the whole session)
 	}
 	var sends []send
 	byK := map[int64]*send{}
 	for _, c := range ro.calls {
-		if c.op != "send" {
+		if c.op != "send" && c.op != "send-extra" {
 			continue
 		}
-		sends = append(sends, send{k: c.info, thread: c.thread, start: c.start, end: c.end, err: c.err})
+		sends = append(sends, send{k: c.info, thread: c.thread, start: c.start, end: c.end, err: c.err, extra: c.op == "send-extra"})
 	}
 	for i := range sends {
 		byK[sends[i].k] = &sends[i]
@@ -515,6 +554,10 @@ func (s *CatSc) checkOut(ro runOut, st *core.Stats, add func(clause, key, format
 				return
 			}
 			lastPos[sd.thread] = pos
+		}
+		if sd.extra {
+			st.Probe("out:send-on-second-port")
+			continue // only the integrity of its line is checked (above)
 		}
 		if inside(surelyClosed, sd.start, sd.end) != nil {
 			st.Probe("out:send-on-closed-port")
